@@ -34,6 +34,11 @@ func c07Compile(c *Ctx) {
 	}
 	c07PairCorrespondence(c, n)
 	c07Streams(c)
+	np := 400
+	if c.Thorough {
+		np = 8000
+	}
+	c07PathStream(c, np)
 	c07Pipelines(c)
 	c07MutationOracle(c)
 }
